@@ -1035,6 +1035,19 @@ func isRuneEncoder(c *Ctx, g *ssa.Function) bool {
 	}).(bool)
 }
 
+// loadOfFieldByType: v loads a field of an object whose type is named owner; returns the object.
+func loadOfFieldByType(v ssa.Value, owner string) (ssa.Value, bool) {
+	ld, ok := v.(*ssa.UnOp)
+	if !ok || ld.Op != token.MUL {
+		return nil, false
+	}
+	fa, ok := ld.X.(*ssa.FieldAddr)
+	if !ok || namedOf(fa.X.Type()) != owner {
+		return nil, false
+	}
+	return fa.X, true
+}
+
 // soleReporterOf: the one function of the module with a call of an error handler for the named error type.
 func soleReporterOf(c *Ctx, typeName string) *ssa.Function {
 	var found *ssa.Function
@@ -1858,4 +1871,90 @@ func armFails(c *Ctx, b *ssa.BasicBlock) (bool, string) {
 		}
 	}
 	return false, "no failure found"
+}
+
+func hasFactIn(c *Ctx, f *ssa.Function, b *ssa.BasicBlock, pred func(condFact) bool) bool {
+	for _, fa := range Facts(c, f).At(b) {
+		if pred(fa) {
+			return true
+		}
+	}
+	return false
+}
+
+func init() {
+	register(&Rule{
+		Name:  "OPT-drivequirk",
+		Doc:   "the Windows drive-letter quirk of the path state (X| becomes X:), which the skip-drive-letter option switches off, stands under url.scheme == \"file\" and an empty path as well as under the drive-letter test: every read of the option is dominated by all three (the standard applies the quirk to the first segment of a file URL only)",
+		Props: []string{"C01"},
+		Floor: 1,
+		Run: func(c *Ctx, s *core.Sink) {
+			n := 0
+			for _, f := range c.P.ModFns {
+				if isInitializer(f) || (f.Parent() != nil && strings.HasPrefix(f.Parent().Name(), "With")) {
+					continue
+				}
+				for _, b := range f.Blocks {
+					for _, ins := range b.Instrs {
+						ld, ok := ins.(*ssa.UnOp)
+						if !ok || optLoad(ld) != "skipWindowsDriveLetterNormalization" {
+							continue
+						}
+						n++
+						pos := c.P.Pos(ld.Pos())
+						// the quirk itself (which the option switches off) applies, in the standard, only to a file URL whose
+						// path is still empty: the option is consulted under those two tests as well
+						isFile := func(bb *ssa.BasicBlock) bool {
+							return hasFactIn(c, f, bb, func(fa condFact) bool {
+								bo, ok := fa.Cond.(*ssa.BinOp)
+								if !ok {
+									return false
+								}
+								if rel, _ := relOf(bo.Op, fa.Val); rel != token.EQL {
+									return false
+								}
+								for _, pr := range [][2]ssa.Value{{bo.X, bo.Y}, {bo.Y, bo.X}} {
+									if k, isK := constString(pr[1]); isK && k == "file" {
+										if _, isScheme := loadOfField(pr[0], "Url:scheme"); isScheme {
+											return true
+										}
+									}
+								}
+								return false
+							})
+						}
+						isEmptyPath := func(bb *ssa.BasicBlock) bool {
+							return hasFactIn(c, f, bb, func(fa condFact) bool {
+								// url.path.isEmpty() answered true
+								if call, ok := fa.Cond.(*ssa.Call); ok && fa.Val {
+									if cl := call.Common().StaticCallee(); cl != nil && namedOf(recvType(cl)) == "path" && len(call.Common().Args) == 1 && strings.Contains(strings.ToLower(cl.Name()), "empty") {
+										return true
+									}
+								}
+								// len(url.path.p) == 0 (or < 1)
+								if bo, ok := fa.Cond.(*ssa.BinOp); ok {
+									rel, okR := relOf(bo.Op, fa.Val)
+									if a, isLen := lenArg(bo.X); okR && isLen {
+										if _, isSegs := loadOfFieldByType(a, "path"); isSegs {
+											if k, isK := constInt(bo.Y); isK && ((rel == token.EQL && k == 0) || (rel == token.LSS && k == 1) || (rel == token.LEQ && k == 0)) {
+												return true
+											}
+										}
+									}
+								}
+								return false
+							})
+						}
+						qkey := fmt.Sprintf("drivequirk/%s#%d", core.FuncName(f), n)
+						s.Check(atLoadOrUses(f, ld, isFile) && atLoadOrUses(f, ld, isEmptyPath), qkey, pos,
+							"the drive-letter quirk the option switches off stands under url.scheme == \"file\" and an empty path, as in the standard",
+							"the drive-letter quirk (and the option that switches it off) is not confined to a file URL whose path is still empty: the standard rewrites X| to X: only in the first segment of a file URL")
+					}
+				}
+			}
+			if n == 0 {
+				s.Unknown("drivequirk/anchor", "-", "the option skipWindowsDriveLetterNormalization is read nowhere: the quirk's condition cannot be named")
+			}
+		},
+	})
 }
